@@ -1068,11 +1068,14 @@ pub struct GenOpts {
     pub avoid_fullname_else: bool,
     /// sprinkle invocations of script-implemented SDK commands (no output variable) over the program
     pub lib_calls: bool,
+    /// arguments of condition-position calls may carry characters that the re-serialisation of such calls mangles
+    /// (only while the finding about that is not listed)
+    pub odd_cond_args: bool,
 }
 
 impl Default for GenOpts {
     fn default() -> Self {
-        GenOpts { functions: false, faults: false, looping: false, halt_cmd: false, max_depth: 4, max_stmts: 40, avoid_forin_return: false, avoid_fullname_else: false, lib_calls: false }
+        GenOpts { functions: false, faults: false, looping: false, halt_cmd: false, max_depth: 4, max_stmts: 40, avoid_forin_return: false, avoid_fullname_else: false, lib_calls: false, odd_cond_args: false }
     }
 }
 
@@ -1080,6 +1083,24 @@ const XVARS: [&str; 5] = ["x0", "x1", "x2", "x3", "x4"];
 const RVARS: [&str; 3] = ["r0", "r1", "r2"];
 // ("OR", "And", "NOT": ordinary values - the condition keywords are lower case)
 const VALUES: [&str; 19] = ["a", "b7", "hello", "x y", "", "0", "true", "two words", "false", "no", "NO", "yes", "1", "False", "OR", "And", "NOT", "a\\b", "p q\\r s\\"];
+
+pub const ODD_COND_ARGS: [&str; 6] = ["a#b", "say \"hi\" now", "=", "x = y", "\"q\"", "# all"];
+
+/// some call in condition position carries an argument with a character that the re-serialisation mangles
+pub fn has_odd_condition_call_argument(p: &Program) -> bool {
+    fn odd(a: &str) -> bool {
+        a.contains('#') || a.contains('"') || a.contains('=') || a.contains('\n') || a.contains('\r')
+    }
+    fn scan(stmts: &[Stmt]) -> bool {
+        stmts.iter().any(|s| match s {
+            Stmt::If { branches, els, .. } => branches.iter().any(|(c, b)| matches!(c, Cond::Call { args, .. } if args.iter().any(|a| odd(a))) || scan(b)) || els.as_ref().map(|e| scan(e)).unwrap_or(false),
+            Stmt::While { cond, body, .. } => matches!(cond, Cond::Call { args, .. } if args.iter().any(|a| odd(a))) || scan(body),
+            Stmt::ForIn { body, .. } => scan(body),
+            _ => false,
+        })
+    }
+    scan(&p.main) || p.fns.iter().any(|f| scan(&f.body))
+}
 
 struct G<'r> {
     /// "big" mode (one program in twenty): ONE dimension goes beyond the usual small pools
@@ -1216,7 +1237,8 @@ impl<'r> G<'r> {
                     // only when no function body reads its parameters: such a value must never reach a condition,
                     // where it would be a keyword (C06's ground), not a value
                     let kw_ok = self.no_params_read;
-                    Cond::Call { f: format!("f{}", f), args: (0..n.max(if kw_ok { 1 } else { 0 })).map(|k| if kw_ok && k == 0 && self.rng.chance(1, 2) { self.rng.pick(&["and", "or"]).to_string() } else { self.tpl(ctx) }).collect() }
+                    let odd = self.opts.odd_cond_args && self.rng.chance(1, 3);
+                    Cond::Call { f: format!("f{}", f), args: (0..n.max(if kw_ok || odd { 1 } else { 0 })).map(|k| if odd && k == 0 { self.rng.pick(&ODD_COND_ARGS).to_string() } else if kw_ok && k == 0 && self.rng.chance(1, 2) { self.rng.pick(&["and", "or"]).to_string() } else { self.tpl(ctx) }).collect() }
                 } else {
                     Cond::Cnd { site: self.new_cnd(3), negate: false }
                 }
